@@ -102,6 +102,34 @@ impl Prop for C09 {
     out
   }
 
+  /// purity stage (thorough): parse a batch of inputs under strace between two marker syscalls; any file or network
+  /// system call between the markers refutes "parsing reads no files"
+  fn post_stage(&self, tier: Tier, seed: u64, self_exe: &str) -> Vec<(Case, Outcome)> {
+    if tier != Tier::Thorough || self_exe.is_empty() { return vec![]; }
+    let dir = format!("{}/work/c09purity-{}", crate::corpus::verif_dir(), std::process::id());
+    let _ = std::fs::create_dir_all(&dir);
+    let log = format!("{}/strace.log", dir);
+    let st = std::process::Command::new("strace").args(["-f", "-e", "trace=%file,%network", "-o", &log, self_exe, "c09purity", &seed.to_string()]).stdout(std::process::Stdio::null()).stderr(std::process::Stdio::null()).status();
+    let case = Case { id: "purity;strace".into(), cell: "purity".into(), input: json!({"seed": seed}) };
+    let out = match (st, std::fs::read_to_string(&log)) {
+      (Ok(s), Ok(txt)) if s.success() => {
+        let mut inside = false; let mut offending = Vec::new(); let mut seen_begin = false; let mut seen_end = false; let mut total = 0usize;
+        for l in txt.lines() {
+          total += 1;
+          if l.contains("/verif-mark-begin") { inside = true; seen_begin = true; continue; }
+          if l.contains("/verif-mark-end") { inside = false; seen_end = true; continue; }
+          if inside && !l.contains("+++") && !l.contains("---") { offending.push(l.to_string()); }
+        }
+        if !seen_begin || !seen_end { Outcome::inconclusive("purity-markers-missing", txt.chars().take(300).collect()) }
+        else if offending.is_empty() { Outcome::held().tag("purity:no-file-or-network-syscalls").num("strace_lines", total as f64) }
+        else { Outcome::violated("syscall-during-parse", format!("file/network system calls while parsing: {:?}", offending.iter().take(5).collect::<Vec<_>>())) }
+      }
+      (st, _) => Outcome::inconclusive("strace-failed", format!("{:?}", st.map(|s| s.code()))),
+    };
+    let _ = std::fs::remove_dir_all(&dir);
+    vec![(case, out)]
+  }
+
   fn run(&self, case: &Case, flavour: &str) -> Outcome {
     let text = case.input["text"].as_str().unwrap();
     let budget: u64 = if flavour == "chk" && case.id.len() > 0 { 20_000_000 } else { 200_000_000 };
@@ -149,4 +177,22 @@ impl Prop for C09 {
     o.digest = Some(fnv(&o1));
     o.num("steps", steps as f64).num("loop_ticks", ticks as f64)
   }
+}
+
+/// body of `mv c09purity <seed>`: everything is loaded first, then only parsing happens between the two marker syscalls
+pub fn purity_main(seed: u64) {
+  install_quiet_panic_hook();
+  let mut inputs: Vec<String> = corpus::test_programs().into_iter().map(|x| x.1).collect();
+  for (_, t) in corpus::mec_files(8 * 1024) { inputs.push(t); }
+  let mut rng = Rng::keyed(seed, "purity");
+  for i in 0..300 { let s = inputs[rng.below(inputs.len() as u64) as usize].clone(); inputs.push(mutate(&s, &mut rng)); let _ = i; }
+  // warm up lazily initialised state (allocator arenas, grapheme tables) before the window
+  let _ = guarded(|| parser::parse("x := 1"));
+  let b = std::ffi::CString::new("/verif-mark-begin").unwrap(); let e = std::ffi::CString::new("/verif-mark-end").unwrap();
+  unsafe { libc::access(b.as_ptr(), 0); }
+  let mut n = 0usize;
+  for t in inputs.iter() { mech_syntax::verif::reset(20_000_000); let r = guarded(|| parser::parse(t)); if let Ok(Err(e)) = &r { if let Some(rep) = e.kind_as::<ParserErrorReport>() { let _ = guarded(|| TextFormatter::new(t).format_error(rep)); } } n += 1; }
+  unsafe { libc::access(e.as_ptr(), 0); }
+  mech_syntax::verif::reset(u64::MAX);
+  println!("parsed {}", n);
 }
